@@ -114,7 +114,7 @@ func c17LateProg(ops []c17Op) *Prog {
 }
 
 // c17FlagProg: the append flag of every write is the result of a call (plain and grouped), never a literal.
-func c17FlagProg(ops []c17Op) *Prog {
+func c17FlagProg(ops []c17Op, inFunc bool) *Prog {
 	st := []Stmt{FuncDef{Name: "flag", Params: []Param{{"b", TBool}}, Rets: []Type{TBool}, Body: []Stmt{Return{Vals: []Expr{Var{"b"}}}}}}
 	n := 0
 	for _, o := range ops {
@@ -128,6 +128,9 @@ func c17FlagProg(ops []c17Op) *Prog {
 		} else {
 			st = append(st, c17Stmts([]c17Op{o})...)
 		}
+	}
+	if inFunc {
+		return &Prog{Stmts: []Stmt{st[0], FuncDef{Name: "work", Body: st[1:]}, ExprStmt{X: Call{Fn: "work"}}, Print{Args: []Expr{StrLit{V: "done"}}}}}
 	}
 	return &Prog{Stmts: append(st, Print{Args: []Expr{StrLit{V: "done"}}})}
 }
@@ -181,7 +184,30 @@ func c17Prog(ops []c17Op, inFunc bool, viaVars bool) *Prog {
 var c17Pre = map[string]string{"sub/keep.txt": "keep\n"}
 
 // c17Judge runs the program and compares stdout/exit/stderr and the final file system.
-func c17Judge(p *Prog) (ProgVerdict, string) {
+func c17Judge(p *Prog) (ProgVerdict, string) { return c17JudgePre(p, c17Pre) }
+
+// c17PreparedProg: the file exists BEFORE the script starts (written by the harness, not by write()); exists and
+// read are used with the path as a literal and as a variable, at top level and inside functions.
+func c17PreparedProg(path string) *Prog {
+	p := StrLit{V: path}
+	no := StrLit{V: "nofile.txt"}
+	return &Prog{Stmts: []Stmt{
+		FuncDef{Name: "chk", Params: []Param{{"p", TStr}}, Rets: []Type{TBool}, Body: []Stmt{Return{Vals: []Expr{ExistsE{Path: Var{"p"}}}}}},
+		FuncDef{Name: "chklit", Rets: []Type{TBool}, Body: []Stmt{Return{Vals: []Expr{ExistsE{Path: p}}}}},
+		FuncDef{Name: "get", Params: []Param{{"p", TStr}}, Rets: []Type{TStr}, Body: []Stmt{Return{Vals: []Expr{ReadE{Path: Var{"p"}}}}}},
+		Print{Args: []Expr{StrLit{V: "e1"}, ExistsE{Path: p}, ExistsE{Path: no}}},
+		Define{Names: []string{"pv"}, Form: DefShort, Vals: []Expr{p}},
+		Print{Args: []Expr{StrLit{V: "e2"}, ExistsE{Path: Var{"pv"}}}},
+		Print{Args: []Expr{StrLit{V: "e3"}, Call{Fn: "chk", Args: []Expr{p}}, Call{Fn: "chk", Args: []Expr{no}}}},
+		Print{Args: []Expr{StrLit{V: "e4"}, Call{Fn: "chklit"}}},
+		If{Cond: ExistsE{Path: p}, Then: []Stmt{Print{Args: []Expr{StrLit{V: "e5 yes"}}}}, Else: []Stmt{Print{Args: []Expr{StrLit{V: "e5 no"}}}}, HasElse: true},
+		Print{Args: []Expr{StrLit{V: "r1"}, StrLit{V: "S"}, ReadE{Path: p}, StrLit{V: "E"}}},
+		Print{Args: []Expr{StrLit{V: "r2"}, StrLit{V: "S"}, Call{Fn: "get", Args: []Expr{Var{"pv"}}}, StrLit{V: "E"}}},
+		Print{Args: []Expr{StrLit{V: "done"}}},
+	}}
+}
+
+func c17JudgePre(p *Prog, c17Pre map[string]string) (ProgVerdict, string) {
 	pv := JudgeBash(p, ProgOpts{Pre: c17Pre, KeepFS: true})
 	if pv.Symptom != "" {
 		return pv, ""
@@ -291,7 +317,11 @@ func C17() int {
 				ok = false
 			}
 			key = fmt.Sprintf("cell path=%q content=%q ctx=flag-from-call", c.path, c.content)
-			if !judge(key, key, c17FlagProg(ops)) {
+			if !judge(key, key, c17FlagProg(ops, false)) {
+				ok = false
+			}
+			key = fmt.Sprintf("cell path=%q content=%q ctx=flag-from-call-in-function", c.path, c.content)
+			if !judge(key, key, c17FlagProg(ops, true)) {
 				ok = false
 			}
 			key = fmt.Sprintf("cell path=%q content=%q ctx=read-rewrite-read-in-one-statement", c.path, c.content)
@@ -307,6 +337,32 @@ func C17() int {
 		if i%17 == 0 {
 			r.Sample(map[string]string{"kind": "path-content-cell", "path": c.path, "content": c.content, "ops": fmt.Sprint(ops)})
 		}
+	})
+	// prepared files: one program per path spelling, the file is there before the script starts
+	drive.Par(len(c17Paths), func(i int) {
+		path := c17Paths[i]
+		pre := map[string]string{"sub/keep.txt": "keep\n", path: "one\n"}
+		prog := c17PreparedProg(path)
+		key := fmt.Sprintf("cell path=%q ctx=prepared-file-exists-and-read", path)
+		pv, _ := c17JudgePre(prog, pre)
+		mu.Lock()
+		evals++
+		mu.Unlock()
+		distinct.Add(pv.Src)
+		if pv.Symptom == "" {
+			mu.Lock()
+			validated++
+			mu.Unlock()
+			return
+		}
+		if pv.Symptom == "undefined" {
+			panic("HARNESS ERROR: c17 prepared-file program leaves the model: " + pv.Detail)
+		}
+		pv2, _ := c17JudgePre(prog, pre)
+		if pv2.Symptom != pv.Symptom {
+			panic("HARNESS ERROR: c17 case not deterministic: " + key)
+		}
+		r.Fail(key, fmt.Sprintf("%s: %s (%s)", key, pv.Symptom, pv.Detail), progReplay(pv, nil))
 	})
 	for i, c := range cells {
 		if !res[i] {
